@@ -58,6 +58,20 @@ Theorem c10_no_late_delivery : forall E ops,
 Proof. exact code_no_late_delivery. Qed.
 Print Assumptions c10_no_late_delivery.
 
+(** The map is read when the request's [handle] runs — after [client_entrypoint]'s
+    [drain.send(1).await], where the task may have waited — not when its connection was accepted
+    ([Client::cancel] only copies the key out of the packet): accepting leaves no trace, acting
+    is a lookup in the state of THAT instant, so it reaches the session the key's owner borrows
+    then, or nobody. *)
+Theorem c10_lookup_when_handled : forall E ops k,
+  step E code_variant (run E code_variant ops) (CancelAccept k) = run E code_variant ops /\
+  act_out code_variant (run E code_variant ops) k = cancel_out (run E code_variant ops) k /\
+  (forall t, act_out code_variant (run E code_variant ops) k = Contact t ->
+     exists c s, key E c = k /\ tgt E s = t /\ held (cl (run E code_variant ops) c) = Some s /\
+                 cphase (cl (run E code_variant ops) c) = Running /\ sv (run E code_variant ops) s = HeldBy c).
+Proof. exact code_act_targets_holder. Qed.
+Print Assumptions c10_lookup_when_handled.
+
 (* ================================================================ every order / variant *)
 
 (** What is sent to the server is a server connection's own key ... *)
@@ -181,29 +195,29 @@ Print Assumptions c10_holder_survives_reloads.
 (** F13, the exit window: with the order "connection back to the pool, then entry removed"
     another client borrows the connection and a CancelRequest with the FIRST client's key is
     forwarded to it. *)
-Theorem c10_exit_window_refuted : forall cd rp cr,
+Theorem c10_exit_window_refuted : forall cd rp cr la,
   exists ops c1 c2 s, c1 <> c2 /\ key ex_env c1 <> key ex_env c2 /\
-    sv (run ex_env (mkVariant cd false rp cr) ops) s = HeldBy c2 /\
-    cphase (cl (run ex_env (mkVariant cd false rp cr) ops) c1) = Exiting /\
-    cancel_out (run ex_env (mkVariant cd false rp cr) ops) (key ex_env c1) = Contact (tgt ex_env s).
+    sv (run ex_env (mkVariant cd false rp cr la) ops) s = HeldBy c2 /\
+    cphase (cl (run ex_env (mkVariant cd false rp cr la) ops) c1) = Exiting /\
+    cancel_out (run ex_env (mkVariant cd false rp cr la) ops) (key ex_env c1) = Contact (tgt ex_env s).
 Proof. exact exit_window_refuted. Qed.
 Print Assumptions c10_exit_window_refuted.
 
 (** F28, cancel once: when the drop of the value that served a CancelRequest removes the key it
     carried, a second CancelRequest during the same checkout is silently ignored. *)
-Theorem c10_cancel_once_refuted : forall ef rp cr,
-  exists ops c s, sv (run ex_env (mkVariant true ef rp cr) ops) s = HeldBy c /\
-    outcomes ex_env (mkVariant true ef rp cr) ops = [Contact (tgt ex_env s)] /\
-    cancel_out (run ex_env (mkVariant true ef rp cr) ops) (key ex_env c) = Silent.
+Theorem c10_cancel_once_refuted : forall ef rp cr la,
+  exists ops c s, sv (run ex_env (mkVariant true ef rp cr la) ops) s = HeldBy c /\
+    outcomes ex_env (mkVariant true ef rp cr la) ops = [Contact (tgt ex_env s)] /\
+    cancel_out (run ex_env (mkVariant true ef rp cr la) ops) (key ex_env c) = Silent.
 Proof. exact cancel_once_refuted. Qed.
 Print Assumptions c10_cancel_once_refuted.
 
 (** Reload pruning (not in the code; the mutant the check must notice): if a configuration
     reload dropped the entries that point to an address which left the configuration, a client
     still running a statement on the old pool's connection could no longer cancel it. *)
-Theorem c10_reload_prune_refuted : forall cd ef cr,
-  exists ops c s, sv (run ex_env (mkVariant cd ef true cr) ops) s = HeldBy c /\
-    cancel_out (run ex_env (mkVariant cd ef true cr) ops) (key ex_env c) = Silent.
+Theorem c10_reload_prune_refuted : forall cd ef cr la,
+  exists ops c s, sv (run ex_env (mkVariant cd ef true cr la) ops) s = HeldBy c /\
+    cancel_out (run ex_env (mkVariant cd ef true cr la) ops) (key ex_env c) = Silent.
 Proof. exact reload_prune_refuted. Qed.
 Print Assumptions c10_reload_prune_refuted.
 
@@ -211,14 +225,33 @@ Print Assumptions c10_reload_prune_refuted.
     connection was refused were retried with the target copied at lookup time, it would reach the
     session after it changed hands — c1 holds nothing any more, its key is dead in the map, and
     the packet arrives at the session now borrowed by c2. *)
-Theorem c10_late_delivery_refuted : forall cd ef rp,
+Theorem c10_late_delivery_refuted : forall cd ef rp la,
   exists ops c1 c2 s, c1 <> c2 /\ key ex_env c1 <> key ex_env c2 /\
-    held (cl (run ex_env (mkVariant cd ef rp true) ops) c1) = None /\
-    cancel_out (run ex_env (mkVariant cd ef rp true) ops) (key ex_env c1) = Silent /\
-    sv (run ex_env (mkVariant cd ef rp true) ops) s = HeldBy c2 /\
-    late_out (run ex_env (mkVariant cd ef rp true) ops) = Contact (tgt ex_env s).
+    held (cl (run ex_env (mkVariant cd ef rp true la) ops) c1) = None /\
+    cancel_out (run ex_env (mkVariant cd ef rp true la) ops) (key ex_env c1) = Silent /\
+    sv (run ex_env (mkVariant cd ef rp true la) ops) s = HeldBy c2 /\
+    late_out (run ex_env (mkVariant cd ef rp true la) ops) = Contact (tgt ex_env s).
 Proof. exact late_delivery_refuted. Qed.
 Print Assumptions c10_late_delivery_refuted.
+
+(** Stale lookup (not in the code; the mutant the check must notice): if the target were looked up
+    when the connection is accepted and used when [handle] finally runs, a request that waited in
+    between would reach the session after it changed hands. *)
+Theorem c10_stale_lookup_refuted : forall cd ef rp cr,
+  exists ops c1 c2 s, c1 <> c2 /\ key ex_env c1 <> key ex_env c2 /\
+    held (cl (run ex_env (mkVariant cd ef rp cr true) ops) c1) = None /\
+    cancel_out (run ex_env (mkVariant cd ef rp cr true) ops) (key ex_env c1) = Silent /\
+    sv (run ex_env (mkVariant cd ef rp cr true) ops) s = HeldBy c2 /\
+    act_out (mkVariant cd ef rp cr true) (run ex_env (mkVariant cd ef rp cr true) ops) (key ex_env c1)
+      = Contact (tgt ex_env s).
+Proof. exact stale_lookup_refuted. Qed.
+Print Assumptions c10_stale_lookup_refuted.
+
+(** For every variant that reads the map in [handle]: nothing is remembered from accept time. *)
+Theorem c10_lookup_in_handle_no_memory : forall E v, lookup_at_accept v = false -> forall ops k,
+  accepted (run E v ops) = [] /\ act_out v (run E v ops) k = cancel_out (run E v ops) k.
+Proof. intros E v LA ops k. split; [exact (no_accepted E v LA ops)|exact (act_is_lookup v LA (run E v ops) k)]. Qed.
+Print Assumptions c10_lookup_in_handle_no_memory.
 
 (** For every variant that does not retry: nothing is ever pending. *)
 Theorem c10_single_attempt_no_pending : forall E v, cancel_retries v = false -> forall ops,
@@ -280,7 +313,7 @@ Proof. vm_compute. reflexivity. Qed.
 Example ex_reload_idle_retired :
   sv (run ex_env code_variant [Checkout 0 0; ReleaseNormal 0 true; Reload [0; 1]; Checkout 1 0]) 0 = Closed.
 Proof. vm_compute. reflexivity. Qed.
-Example ex_reload_mutant : outcomes ex_env (mkVariant false true true false)
+Example ex_reload_mutant : outcomes ex_env (mkVariant false true true false false)
   [Checkout 0 0; Cancel k0; Reload [0]; Cancel k0] = [Contact t0; Silent].
 Proof. vm_compute. reflexivity. Qed.
 
@@ -288,8 +321,16 @@ Proof. vm_compute. reflexivity. Qed.
 Example ex_refused_code : outcomes ex_env code_variant
   (late_ops ++ [DeliverLate; Cancel k0; Cancel k1]) = [Silent; Silent; Silent; Contact t0].
 Proof. vm_compute. reflexivity. Qed.
-Example ex_refused_mutant : outcomes ex_env (mkVariant false true false true)
+Example ex_refused_mutant : outcomes ex_env (mkVariant false true false true false)
   (late_ops ++ [DeliverLate; Cancel k0; Cancel k1]) = [Silent; Contact t0; Silent; Contact t0].
+Proof. vm_compute. reflexivity. Qed.
+
+(** the request's task waits between accept and handle while the server changes hands *)
+Example ex_stale_code : outcomes ex_env code_variant
+  (stale_ops ++ [CancelAct k0; Cancel k1; CancelAccept k1; CancelAct k1]) = [Silent; Contact t0; Contact t0].
+Proof. vm_compute. reflexivity. Qed.
+Example ex_stale_mutant : outcomes ex_env (mkVariant false true false false true)
+  (stale_ops ++ [CancelAct k0; Cancel k1; CancelAccept k1; CancelAct k1]) = [Contact t0; Contact t0; Contact t0].
 Proof. vm_compute. reflexivity. Qed.
 
 (** the guards separate exactly these schedules *)
